@@ -253,6 +253,9 @@ func parseJSONString(s string) (string, bool, error) {
 }
 
 func parseNumber(s string) (any, bool) {
+	if !isDecimal(s) {
+		return nil, false
+	}
 	z, err := strconv.ParseInt(s, 10, 64)
 	if err == nil {
 		return z, true
@@ -262,6 +265,25 @@ func parseNumber(s string) (any, bool) {
 		return v, true
 	}
 	return nil, false
+}
+
+// isDecimal reports whether s consists of decimal digits with an optional
+// leading sign and at most one decimal point.
+func isDecimal(s string) bool {
+	if s != "" && (s[0] == '+' || s[0] == '-') {
+		s = s[1:]
+	}
+	var digits, points int
+	for i := 0; i < len(s); i++ {
+		if s[i] >= '0' && s[i] <= '9' {
+			digits++
+		} else if s[i] == '.' {
+			points++
+		} else {
+			return false
+		}
+	}
+	return digits > 0 && points <= 1
 }
 
 func parseConstant(s string) (any, bool) {
